@@ -109,6 +109,7 @@ func (c *client) PutMany(ctx context.Context, records []kvs.Record) error {
 			mset = nil
 			break
 		}
+		r.Version = ulidutils.NewID()
 		mset = append(mset, rKey(r.Key))
 		mset = append(mset, cast.ByteArrayToString(rec2db(&r)))
 	}
